@@ -161,8 +161,8 @@ theorem item_tree_call_good (pin : Bool) (t : ITree) (ht : t.TabsWF) {ans : List
     simp only [hc, Except.map, Except.ok.injEq] at hr; subst hr
     exact item_tree_good pin t ht ha hc
 
-/-- **One entry per submitted input, none missing** — for every validly configured list grader tree (accepted grouping with one
-    answer per group, recursively for nested graders), ordered or unordered, at every nesting level. -/
+/-- **One entry per submitted input, none missing** — for every validly configured list grader tree (an accepted grouping or none, recursively for nested graders; that there is one
+    answer per group is enforced by the check itself since the `fix:` commit F11), ordered or unordered, at every nesting level. -/
 theorem list_tree_one_entry_per_input (t : LTree) {answers : List (List UAny)} {student : List String} {out : LOut}
     (hok : ListOK t answers) (hne : student ≠ []) (h : t.check answers student = .ok out) :
     out.entries.length = student.length ∧ ∀ e ∈ out.entries, e.isSome = true :=
@@ -299,9 +299,7 @@ def exOuterAns : List (List UAny) := [[.lists [[exItemA, exItemB]], .lists [[exI
 
 example : ListOK exOuter exOuterAns := by
   refine .mk _ _ _ ?_ ?_
-  · intro al hal
-    simp only [exOuterAns, List.mem_singleton] at hal; subst hal
-    exact Or.inr ⟨[[0, 2], [1, 3]], by decide, rfl⟩
+  · exact Or.inr ⟨[[0, 2], [1, 3]], by decide⟩
   · intro al hal k a hcond s hs
     simp only [exOuterAns, List.mem_singleton] at hal; subst hal
     simp only [Bool.false_eq_true, ↓reduceIte] at hcond
@@ -310,7 +308,7 @@ example : ListOK exOuter exOuterAns := by
     subst hs
     have inner : ∀ ls, ListOK exInner ls := by
       intro ls
-      refine .mk _ _ _ (fun _ _ => Or.inl rfl) ?_
+      refine .mk _ _ _ (Or.inl rfl) ?_
       intro al _ k a _ s hs
       simp only [subFor, List.length_singleton, beq_self_eq_true, ↓reduceIte, List.getElem?_cons_zero, Option.some.injEq] at hs
       subst hs; exact .item _ _
